@@ -54,7 +54,9 @@ def gen_pairs(ctx, n):
         pairs.append((x, y))
     # look-alike constants (1 vs 1.0, a vs "a") below a functor, next to an argument that keeps the pair non-ground: the
     # clause index cannot filter the clause, so the head unifier itself has to tell them apart
-    alike = [(T.I(n), T.F(4 * n)) for n in (0, 1, 2, -1)] + [(T.A("a"), T.S("a")), (T.A("1"), T.I(1))]
+    qa = dict(T.A("a"), fq=1)          # the atom a written 'a'
+    qb = dict(T.A("b"), fq=1)
+    alike = [(T.I(n), T.F(4 * n)) for n in (0, 1, 2, -1)] + [(T.A("a"), T.S("a")), (T.A("1"), T.I(1)), (T.A("a"), qa), (qb, T.A("b"))]
     for la, lb in alike:
         for p, q in ((la, lb), (lb, la), (la, la), (lb, lb)):
             pairs += [(T.Cm("g", T.V(1), p), T.Cm("g", T.A("a"), q)), (T.Cm("g", T.A("a"), p), T.Cm("g", T.V(1), q)),
@@ -104,7 +106,7 @@ def run(ctx):
             ctx.violation({"clause": "crash", "error": o.get("error", ""), "site": o.get("site", "")},
                           "%s = %s : %s" % (T.render(x), T.render(y), o["crash"]), {"x": x, "y": y})
             continue
-        send.append({"id": i, "kind": "unify", "x": x, "y": y, "yh": T.rename(y, 100), "eq": o["eq"], "neq": o["neq"],
+        send.append({"id": i, "kind": "unify", "x": T.unquote(x), "y": T.unquote(y), "yh": T.unquote(T.rename(y, 100)), "eq": o["eq"], "neq": o["neq"],
                      "head": o["head"], "head2": o["head2"], "head3": o["head3"]})
     J = tlc.judge_batch("JudgeTerms", send, nproc=ctx.nproc, tag="c14")
     nunif = 0
@@ -114,7 +116,8 @@ def run(ctx):
             nunif += 1
         if not j["ok"]:
             x, y = pairs[c["id"]]
-            ctx.violation({"clause": j["why"], "numeric_atom": bool(numeric_atoms(x) | numeric_atoms(y))},
+            ctx.violation({"clause": j["why"], "numeric_atom": bool(numeric_atoms(x) | numeric_atoms(y)),
+                           "quoted_atom": T.has_forced_quote(x) or T.has_forced_quote(y)},
                           "%s  vs  %s : %s (=: %s, \\=: %s, head: %s)" % (
                 T.render(x), T.render(y), j["why"], c["eq"]["ok"], c["neq"]["ok"], c["head"]["ok"]), {"x": x, "y": y})
     for c in send[:3]:
@@ -142,10 +145,11 @@ def replay(ctx, path):
     if o.get("crash"):
         ctx.violation({"clause": "crash", "error": o.get("error", ""), "site": o.get("site", "")}, o["crash"], d["case"])
     else:
-        j = tlc.judge_batch("JudgeTerms", [{"id": 0, "kind": "unify", "x": x, "y": y, "yh": T.rename(y, 100),
+        j = tlc.judge_batch("JudgeTerms", [{"id": 0, "kind": "unify", "x": T.unquote(x), "y": T.unquote(y), "yh": T.unquote(T.rename(y, 100)),
                                             "eq": o["eq"], "neq": o["neq"], "head": o["head"], "head2": o["head2"],
                                             "head3": o["head3"]}], nproc=1)[0]
         print(j)
         if not j["ok"]:
-            ctx.violation({"clause": j["why"], "numeric_atom": bool(numeric_atoms(x) | numeric_atoms(y))}, j["why"], d["case"])
+            ctx.violation({"clause": j["why"], "numeric_atom": bool(numeric_atoms(x) | numeric_atoms(y)),
+                           "quoted_atom": T.has_forced_quote(x) or T.has_forced_quote(y)}, j["why"], d["case"])
     ctx.write_evidence("exploration", {"evaluations": 1, "distinct_nontrivial": 0, "rule": "replay", "samples": [d["case"]]})
